@@ -16,7 +16,7 @@
 (*            statements (order independence, first offending statement,   *)
 (*            clashing names).                                              *)
 (***************************************************************************)
-EXTENDS OptFile
+EXTENDS OptFile, SequencesExt
 
 Absent == Node("absent", "", 0, <<>>)
 KwIf(n, e) == IF e = Absent THEN <<>> ELSE <<KwE(n, e)>>
@@ -25,36 +25,44 @@ S(x) == EStr(x)
 Leaves == {S("a"), S("b"), S("true"), S("7"), EInt(0), EInt(7), EBool(TRUE), EBool(FALSE), EId("foo")}
 BinOps == {"+", "-", "*", "/", "%"}
 
-D1 == Leaves
-      \cup {EParen(e) : e \in Leaves} \cup {ENeg(e) : e \in Leaves} \cup {ENot(e) : e \in Leaves}
-      \cup {EBin(op, l, r) : op \in BinOps, l \in Leaves, r \in Leaves}
-      \cup {ECmp("==", e, e) : e \in Leaves} \cup {ELogic("and", e, e) : e \in Leaves}
-      \cup {ECall("get_option", <<e>>) : e \in Leaves} \cup {EMethod(e, "to_string", <<>>) : e \in Leaves}
-      \cup {EIndex(EArr(<<e>>), EInt(0)) : e \in Leaves} \cup {ETern(EBool(TRUE), e, e) : e \in Leaves}
-      \cup {EArr(<<e>>) : e \in Leaves} \cup {EArr(<<l, r>>) : l \in Leaves, r \in Leaves}
-      \cup {EDict(<<EPair(S("k"), e)>>) : e \in Leaves} \cup {EDict(<<EPair(e, S("v"))>>) : e \in Leaves}
-      \cup {EArr(<<>>), EDict(<<>>), EDict(<<EPair(S("a"), S("b")), EPair(S("c"), S("d"))>>)}
+\* (UNION of a set of sets: TLC's binary \cup on large enumerated sets is quadratic)
+D1 == UNION {Leaves,
+      {EParen(e) : e \in Leaves}, {ENeg(e) : e \in Leaves}, {ENot(e) : e \in Leaves},
+      {EBin(op, l, r) : op \in BinOps, l \in Leaves, r \in Leaves},
+      {ECmp("==", e, e) : e \in Leaves}, {ELogic("and", e, e) : e \in Leaves},
+      {ECall("get_option", <<e>>) : e \in Leaves}, {EMethod(e, "to_string", <<>>) : e \in Leaves},
+      {EIndex(EArr(<<e>>), EInt(0)) : e \in Leaves}, {ETern(EBool(TRUE), e, e) : e \in Leaves},
+      {EArr(<<e>>) : e \in Leaves}, {EArr(<<l, r>>) : l \in Leaves, r \in Leaves},
+      {EDict(<<EPair(S("k"), e)>>) : e \in Leaves}, {EDict(<<EPair(e, S("v"))>>) : e \in Leaves},
+      {EArr(<<>>), EDict(<<>>), EDict(<<EPair(S("a"), S("b")), EPair(S("c"), S("d"))>>)}}
 
 Glue == {S("a"), EInt(7)}
-D2(u) == D1
-      \cup {EParen(e) : e \in D1} \cup {ENeg(e) : e \in D1} \cup {ENot(e) : e \in D1}
-      \cup {EBin("+", x, y) : x \in D1, y \in Glue} \cup {EBin("+", y, x) : x \in D1, y \in Glue}
-      \cup {EArr(<<x>>) : x \in D1} \cup {EDict(<<EPair(S("k"), x)>>) : x \in D1}
+D2(u) == UNION {D1,
+      {EParen(e) : e \in D1}, {ENeg(e) : e \in D1}, {ENot(e) : e \in D1},
+      {EBin("+", x, y) : x \in D1, y \in Glue}, {EBin("+", y, x) : x \in D1, y \in Glue},
+      {EArr(<<x>>) : x \in D1}, {EDict(<<EPair(S("k"), x)>>) : x \in D1}}
 
 Exprs(d) == IF d <= 1 THEN D1 ELSE D2(d)
 
 X == <<S("x")>>
 T(k) == KwE("type", S(k))
 \* every argument slot of option() an expression can stand in
-SlotStmts(e) ==
-    {OptionCall(X, <<T(k), KwE("value", e)>>) : k \in {"string", "integer", "boolean", "array", "feature"}}
-    \cup {OptionCall(X, <<T("combo"), KwE("choices", e)>>),
-          OptionCall(X, <<T("string"), KwE("deprecated", e)>>),
-          OptionCall(<<e>>, <<T("string")>>),
-          OptionCall(X, <<T("integer"), KwE("value", EInt(3)), KwE("min", e)>>),
-          OptionCall(X, <<T("string"), KwE("yield", e)>>),
-          OptionCall(X, <<T("string"), KwE("description", e)>>),
-          OptionCall(X, <<KwE("type", e)>>)}
+NSlots == 13
+Slot(k, e) ==
+    CASE k = 1 -> OptionCall(X, <<T("string"), KwE("value", e)>>)
+      [] k = 2 -> OptionCall(X, <<T("integer"), KwE("value", e)>>)
+      [] k = 3 -> OptionCall(X, <<T("boolean"), KwE("value", e)>>)
+      [] k = 4 -> OptionCall(X, <<T("array"), KwE("value", e)>>)
+      [] k = 5 -> OptionCall(X, <<T("feature"), KwE("value", e)>>)
+      [] k = 6 -> OptionCall(X, <<T("combo"), KwE("choices", e)>>)
+      [] k = 7 -> OptionCall(X, <<T("string"), KwE("deprecated", e)>>)
+      [] k = 8 -> OptionCall(<<e>>, <<T("string")>>)
+      [] k = 9 -> OptionCall(X, <<T("integer"), KwE("value", EInt(3)), KwE("min", e)>>)
+      [] k = 10 -> OptionCall(X, <<T("string"), KwE("yield", e)>>)
+      [] k = 11 -> OptionCall(X, <<T("string"), KwE("description", e)>>)
+      [] k = 12 -> OptionCall(X, <<KwE("type", e)>>)
+      [] k = 13 -> OptionCall(X, <<T("integer"), KwE("value", EInt(0)), KwE("max", e)>>)
+SlotStmts(d) == {Slot(k, e) : k \in 1..NSlots, e \in Exprs(d)}
 
 TypeLits == {S("string"), S("boolean"), S("integer"), S("combo"), S("array"), S("feature"), S("str"), Absent, EInt(1)}
 ValueLits == {Absent, S("a"), S("c"), S("true"), S("7"), S("enabled"), S("auto"), EInt(3), EInt(0), EInt(9),
@@ -72,13 +80,13 @@ NameLits == {"x", "opt-1", "Opt_2", "X9", "prefix", "libdir", "namingscheme", "d
              "bx_y", "build_x", "x_c", "lib_c_x", "platlib", "python.platlibdir", "a.b", "a:b", "a b", "build.x", "sub:x"}
 NameStmts == {OptionCall(<<S(n)>>, <<T("string")>>) : n \in NameLits}
 
-CommonLits ==
-    {KwE("yield", e) : e \in {EBool(TRUE), EBool(FALSE), S("true"), EInt(1)}}
-    \cup {KwE("description", e) : e \in {S("words here"), EInt(1), EArr(<<S("d")>>), EBin("+", S("two "), S("parts"))}}
-    \cup {KwE("deprecated", e) : e \in {EBool(TRUE), EBool(FALSE), S("y"), EArr(<<S("a")>>), EArr(<<S("a"), EInt(1)>>), EArr(<<>>),
-                                         EDict(<<EPair(S("a"), S("b"))>>), EDict(<<EPair(S("a"), EInt(1))>>), EDict(<<>>),
-                                         EDict(<<EPair(S("true"), S("enabled")), EPair(S("false"), S("disabled"))>>), EInt(1)}}
-    \cup {KwE(n, S("v")) : n \in {"value_", "foo", "required", "default", "name"}}
+CommonLits == UNION {
+    {KwE("yield", e) : e \in {EBool(TRUE), EBool(FALSE), S("true"), EInt(1)}},
+    {KwE("description", e) : e \in {S("words here"), EInt(1), EArr(<<S("d")>>), EBin("+", S("two "), S("parts"))}},
+    {KwE("deprecated", e) : e \in {EBool(TRUE), EBool(FALSE), S("y"), EArr(<<S("a")>>), EArr(<<S("a"), EInt(1)>>), EArr(<<>>),
+                                     EDict(<<EPair(S("a"), S("b"))>>), EDict(<<EPair(S("a"), EInt(1))>>), EDict(<<>>),
+                                     EDict(<<EPair(S("true"), S("enabled")), EPair(S("false"), S("disabled"))>>), EInt(1)}},
+    {KwE(n, S("v")) : n \in {"value_", "foo", "required", "default", "name"}}}
 CommonStmts == {OptionCall(X, <<T(k), kwe>>) : k \in {"string", "boolean", "array", "feature"}, kwe \in CommonLits}
 
 ShapeStmts ==
@@ -91,7 +99,8 @@ ShapeStmts ==
      Stmt("expr", "", <<EId("v")>>, <<>>), Stmt("if", "", <<EBool(TRUE)>>, <<>>), Stmt("foreach", "v", <<EArr(<<>>)>>, <<>>),
      Stmt("method", "strip", <<S("abc")>>, <<>>), Stmt("garbage", "~", <<>>, <<>>), Stmt("garbage", "$", <<>>, <<>>)}
 
-Big(d) == UNION {SlotStmts(e) : e \in Exprs(d)} \cup DeclProduct \cup NameStmts \cup CommonStmts \cup ShapeStmts
+\* as a sequence (families may overlap; TLC's union of large enumerated sets is quadratic)
+BigSeqOf(d) == SetToSeq(SlotStmts(d)) \o SetToSeq(DeclProduct) \o SetToSeq(NameStmts) \o SetToSeq(CommonStmts) \o SetToSeq(ShapeStmts)
 
 \* whole statements for files of several statements
 Core ==
